@@ -12,7 +12,7 @@ head = subprocess.run(['git', '-C', '/repo', 'log', '--format=%h', '-1'], stdout
 meta = dict(property=prop, breaks=open(os.path.join(d, 'notes.md')).read().split('\n')[0][:300] if os.path.exists(os.path.join(d, 'notes.md')) else '',
             needs_to_manifest=needs,
             verified=dict(repo_head=head, how='tools/mutant.sh verify: applied in a scratch worktree of /repo HEAD, project built with cmake, 345 sub-tests OK / 0 FAILED with the change, demo.sh exits non-zero on the changed tree and 0 on the unchanged tree',
-                          checks_run='tools/mutant.sh check: git -C /repo apply patch.diff; ./check <id> (quick tier); git -C /repo checkout -- .'),
+                          checks_run=os.environ.get('SEED_CHECKS_RUN', 'tools/mutant.sh checkw: git worktree add <scratch> HEAD; git -C <scratch> apply patch.diff; VERIF_REPO=<scratch> ./check <id> (quick tier); worktree removed')),
             caught_by=caught, before_strengthening=initially)
 json.dump(meta, open(os.path.join(d, 'meta.json'), 'w'), indent=1)
 print('stored', d)
